@@ -129,7 +129,8 @@ func execAstream(c fw.Case) (string, *fw.OracleFailure) {
 		return sock.Str(e, "event") == "file-saved" && !sock.Bool(e, "probe")
 	}, 4*time.Second)
 	_ = quit
-	if !srv.Alive() {
+	if !srv.Ping(2 * time.Second) {
+		time.Sleep(20 * time.Millisecond)
 		_, code, tail := srv.ExitInfo()
 		return "died", &fw.OracleFailure{Sig: "attach-server/died", Msg: fmt.Sprintf("attachment server exited with code %d: %s", code, lastLines(tail, 8))}
 	}
@@ -269,7 +270,8 @@ func execHostile(c fw.Case) (string, *fw.OracleFailure) {
 		return "server-start-failed", &fw.OracleFailure{Sig: "server/start", Msg: err.Error()}
 	}
 	fail := func(sig, msg string) (string, *fw.OracleFailure) {
-		if !srv.Alive() {
+		if !srv.Ping(500 * time.Millisecond) {
+			time.Sleep(20 * time.Millisecond)
 			_, code, tail := srv.ExitInfo()
 			sig, msg = kind+"-server/died", fmt.Sprintf("server exited with code %d: %s", code, lastLines(tail, 8))
 		}
@@ -319,7 +321,7 @@ func execHostile(c fw.Case) (string, *fw.OracleFailure) {
 	if m := w2.check(); m != "" {
 		return fail(kind+"/new-connection-not-served", m)
 	}
-	if !srv.Alive() {
+	if !srv.Ping(2 * time.Second) {
 		return fail(kind+"-server/died", "")
 	}
 	return "contained", nil
